@@ -370,9 +370,25 @@ pub fn parse(raw: &[u8]) -> Result<Image, String> {
         }
     }
     if let Some(root) = img.entries.first() {
-        if root.start != END || root.size != 0 {
+        if root.size != 0 {
             let start = root.start;
             img.ministream_chain = img.chain(start, "mini stream", &mut probs);
+        } else if root.start != END {
+            // No mini stream: MS-CFB says nothing about the start sector field then.  It is
+            // taken for a container chain that was kept (what this library does when the
+            // mini stream empties) only if it is a well-formed chain that nothing else
+            // owns; otherwise it is a leftover value without meaning.
+            let start = root.start;
+            let mut scratch = Vec::new();
+            let chain = img.chain(start, "mini stream", &mut scratch);
+            let mut taken: std::collections::HashSet<u32> = img.dir_chain.iter().chain(img.fat_sectors.iter()).chain(img.difat_sectors.iter()).chain(img.minifat_chain.iter()).cloned().collect();
+            for e in img.entries.iter().skip(1).filter(|e| e.obj_type == 2 && e.size >= 4096) {
+                let mut p2 = Vec::new();
+                taken.extend(img.chain(e.start, "stream", &mut p2));
+            }
+            if scratch.is_empty() && !chain.is_empty() && !chain.iter().any(|s| taken.contains(s)) {
+                img.ministream_chain = chain;
+            }
         }
     }
     img.walk_problems = probs;
